@@ -379,7 +379,12 @@ func c05RoundTrip(c *Ctx) {
 		// the decoded bitmap must support all further operations
 		dm := &BM{B: dst, M: m.Clone(), ZC: e.zc, Keep: keep}
 		for i := 0; i < 20 && !c.Failed(); i++ {
-			op := mutateStep(c, dm, MutOpts{Light: true, NoClone: true, COWToggle: !e.zc, Sig: e.name + "/then-"})
+			var op string
+			if r.Chance(0.2) {
+				op = algebraStep(c, dm, e.name+"/then-")
+			} else {
+				op = mutateStep(c, dm, MutOpts{Light: true, NoClone: true, COWToggle: !e.zc, Sig: e.name + "/then-"})
+			}
 			if c.Failed() {
 				return
 			}
